@@ -1,5 +1,5 @@
 """Unit registry: which assembled Verus files exist and which properties each carries."""
-from units import expr, builder, smallslices, tables, dfa, bindings, elim, regexp, render, fmtunit
+from units import expr, builder, smallslices, tables, dfa, bindings, elim, regexp, render, fmtunit, nested
 
 REGISTRY = {
     'expr':     lambda repo, sd, canary=False: expr.build(repo, sd, canary=canary),
@@ -21,6 +21,7 @@ REGISTRY = {
     'render':   lambda repo, sd, canary=False: render.build(repo, sd, canary=canary),
     'format':   lambda repo, sd, canary=False: fmtunit.build(repo, sd, canary=canary),
     'matrix':   lambda repo, sd, canary=False: elim.build_matrix(repo, sd, canary=canary),
+    'nested':   lambda repo, sd, canary=False: nested.build(repo, sd, canary=canary),
     'trie':     lambda repo, sd, canary=False: dfa.build_trie(repo, sd, canary=canary),
     'wasm':     lambda repo, sd, canary=False: bindings.build_wasm(repo, sd, canary=canary),
     'python':   lambda repo, sd, canary=False: bindings.build_python(repo, sd, canary=canary),
@@ -28,17 +29,17 @@ REGISTRY = {
 }
 # units whose obligations carry a property (an obligation counts for a property only if its clause is tagged with it)
 PROP_UNITS = {
-    'C01': ['expr', 'elim', 'matrix', 'regexp', 'caseconv', 'split', 'escaper', 'rep', 'dfa', 'dfa_kf', 'trie', 'render', 'format'],
+    'C01': ['expr', 'elim', 'matrix', 'regexp', 'caseconv', 'split', 'escaper', 'rep', 'dfa', 'dfa_kf', 'trie', 'render', 'format', 'nested'],
     'C02': ['expr', 'elim', 'matrix', 'regexp', 'dfa', 'gates', 'render', 'format'],
     'C03': ['classify', 'gates', 'trie'],
     'C04': ['caseconv', 'regexp', 'render'],
     'C05': ['trie', 'render', 'rep', 'splice'],
-    'C06': ['render', 'format'],
-    'C07': ['expr', 'elim', 'matrix', 'regexp', 'builder', 'split', 'escaper', 'caseconv', 'rep', 'splice', 'gates', 'render', 'format', 'order', 'dfa', 'trie', 'cli', 'escape', 'classify'],
+    'C06': ['render', 'format', 'trie', 'rep', 'nested'],
+    'C07': ['expr', 'elim', 'matrix', 'regexp', 'builder', 'split', 'escaper', 'caseconv', 'rep', 'splice', 'gates', 'render', 'format', 'order', 'dfa', 'trie', 'cli', 'escape', 'classify', 'nested'],
     'C08': ['render', 'expr', 'regexp', 'format'],
     'C09': ['tables', 'classify'],
     'C10': ['builder', 'regexp', 'gates', 'order'],
-    'C11': ['escape', 'builder', 'format'],
+    'C11': ['escape', 'builder', 'format', 'nested'],
     'C12': ['cli', 'gates'],
     'C13': ['rep', 'splice', 'builder', 'render', 'trie'],
     'C14': ['python'],
